@@ -46,6 +46,9 @@ pub enum Op {
         /// after the first `Pending` the caller abandons `data` and writes this instead
         #[serde(default, with = "hexopt")]
         retry_other: Option<Vec<u8>>,
+        /// the other plaintext is placed in the very same buffer (same address, same length)
+        #[serde(default)]
+        same_buffer: bool,
     },
     Switch,
     Read {
@@ -165,7 +168,7 @@ pub fn run_unit(sc: &UnitSc) -> RunReport {
                 rswitch = Some(surfaced.len());
                 trace.write_str("switch");
             }
-            Op::Write { data, tw, retry_other } => {
+            Op::Write { data, tw, retry_other, same_buffer } => {
                 ts.borrow_mut().wq = tw.clone().into();
                 let mut rest: Vec<u8> = data.clone();
                 let mut other = retry_other.clone();
@@ -180,8 +183,16 @@ pub fn run_unit(sc: &UnitSc) -> RunReport {
                                 faults_after_switch = true;
                             }
                             if let Some(o) = other.take() {
-                                *rep.faults.entry("retry_with_other_buffer".into()).or_insert(0) += 1;
-                                rest = o;
+                                if *same_buffer {
+                                    // cancel the write and reuse the scratch buffer for other plaintext
+                                    *rep.faults.entry("retry_with_other_plaintext_same_buffer".into()).or_insert(0) += 1;
+                                    for (i, b) in rest.iter_mut().enumerate() {
+                                        *b = o[i % o.len().max(1)] ^ (i as u8);
+                                    }
+                                } else {
+                                    *rep.faults.entry("retry_with_other_buffer".into()).or_insert(0) += 1;
+                                    rest = o;
+                                }
                             }
                         }
                         Poll::Ready(Ok(n)) => {
@@ -347,7 +358,8 @@ fn gen_unit(rng: &mut Rng) -> UnitSc {
             } else {
                 None
             };
-            ops.push(Op::Write { data, tw, retry_other });
+            let same_buffer = retry_other.is_some() && rng.chance(1, 2);
+            ops.push(Op::Write { data, tw, retry_other, same_buffer });
         } else {
             let mut chunks = vec![];
             for _ in 0..rng.range(1, 4) {
@@ -428,7 +440,7 @@ impl Check for C05 {
         "fault_enumeration"
     }
     fn rule_text(&self) -> String {
-        "4 of 5 cases: operation sequences (writes with a per-poll transport plan of Pending / prefix acceptance / full acceptance, optional retry with another buffer after Pending; reads with transport chunks, Pending and read-buffer sizes down to 1 byte, pre-filled ReadBuf; the plaintext->ciphertext switch at a random operation boundary) against the real CipherStream polled by hand; 1 of 5: a whole login through the real Connection under write faults, decoded by the independent client. Non-trivial = at least one Pending / partial acceptance / short read fired after encryption was enabled; distinct = distinct hash of the operation/fault outcome sequence.".into()
+        "4 of 5 cases: operation sequences (writes with a per-poll transport plan of Pending / prefix acceptance / full acceptance, optional retry with another buffer - or other plaintext in the same buffer - after Pending; reads with transport chunks, Pending and read-buffer sizes down to 1 byte, pre-filled ReadBuf; the plaintext->ciphertext switch at a random operation boundary) against the real CipherStream polled by hand; 1 of 5: a whole login through the real Connection under write faults, decoded by the independent client. Non-trivial = at least one Pending / partial acceptance / short read fired after encryption was enabled; distinct = distinct hash of the operation/fault outcome sequence.".into()
     }
     fn assumptions(&self) -> Vec<String> {
         vec![
